@@ -607,6 +607,9 @@ class C19(core.Check):
             for key in impl["slices"]:
                 a, i = key.split(":")
                 reqs.append(f"c19.slice {n} {a} {i}")
+            # get_slice interpreted from the regenerated branches of the source, one (axis, index) per case
+            a = (case["nx"] + case["ny"] + case["nz"]) % 3
+            reqs.append(f"c19.slicesrc {n} {a} 0")
             if case["delete"] is not None:
                 i, j, k = case["delete"]
                 reqs.append(f"c19.delete {n} {i} {j} {k}")
@@ -618,7 +621,11 @@ class C19(core.Check):
         name = table_name(case["name"])
         if name is None:
             return []
-        return [f"c19.{case['kind']} {name}"]
+        reqs = [f"c19.{case['kind']} {name}"]
+        if case["kind"] == "sketch":
+            # the index structure computed from the regenerated source text (quad_map, grid expression, merge, core / shell)
+            reqs.append(f"c19.sketchsrc {name}")
+        return reqs
 
     def compare(self, case: dict, impl: Any, model: List[str]) -> Optional[str]:
         def show(x) -> str:
@@ -643,6 +650,12 @@ class C19(core.Check):
                 want = show(want) if isinstance(want, list) else want
                 if ans != want:
                     return f"get_slice({key}): implementation {want[:400]} / model {ans[:400]}"
+            a = (case["nx"] + case["ny"] + case["nz"]) % 3
+            want = impl["slices"][f"{a}:0"]
+            want = show(want) if isinstance(want, list) else want
+            ans = model[4 + len(impl["slices"])]
+            if ans != want:
+                return f"get_slice({a}:0): implementation {want[:400]} / the source's branches interpreted by the model {ans[:400]}"
             if case["delete"] is None:
                 return None
             want = impl["deleted"]
@@ -669,6 +682,17 @@ class C19(core.Check):
             for k in ("grid", "core", "shell") + (("rim",) if "rim" in fields else ()):
                 if fields[k] != show(impl[k]):
                     return f"{case['name']} {k}: implementation {show(impl[k])} / table {fields[k]}"
+            if len(model) > 1:
+                if model[1] == "bad-op":
+                    return f"{case['name']}: the model cannot compute the index structure from the source tables"
+                src = dict(f.split("=", 1) for f in model[1].split(" "))
+                if src["n"] != str(len(impl["cells"])):
+                    return f"{case['name']} number of faces: implementation {len(impl['cells'])} / model from source {src['n']}"
+                if src["cells"] != "-" and src["cells"] != show(impl["cells"]):
+                    return f"{case['name']} faces: implementation {show(impl['cells'])} / quad_map of the source {src['cells']}"
+                for k in ("grid", "core", "shell"):
+                    if src[k] != show(impl[k]):
+                        return f"{case['name']} {k}: implementation {show(impl[k])} / model from source {src[k]}"
             return None
         for k, f in (("opface", "opface"), ("core", "core"), ("shell", "shell")):
             if fields[f] != show(impl[k]):
